@@ -266,6 +266,36 @@ Theorem C16_wait_after_all_servers_of_lineage :
 Proof. exact wait_after_all_servers. Qed.
 Print Assumptions C16_wait_after_all_servers_of_lineage.
 
+(* every running Serve goroutine belongs to a known instance and holds that instance's wait group;
+   so when Wait on h returns, no server of ANY instance of h's lineage — h itself, its
+   predecessors and all its successors (they share the wait group, see below) — is serving *)
+Theorem C16_wait_means_lineage_stopped :
+  forall ops h s' ev o,
+  step (final init ops) (OWait h) = (s', ev, RBool true) ->
+  find_inst h (known (final init ops)) = Some o ->
+  forall x, In x (known (final init ops)) -> i_root x = i_root o ->
+  forall j r, ~ In (i_id x, j, r) (serving (final init ops)).
+Proof. exact wait_means_lineage_stopped. Qed.
+Print Assumptions C16_wait_means_lineage_stopped.
+
+(* the Serve goroutines of the state are exactly the servers the event trace shows serving and not
+   yet returned ([serving_of tr []]: Serve events minus Serve-returned events, in order) ... *)
+Theorem C16_serving_matches_trace :
+  forall ops, map fst (serving (final init ops)) = serving_of (trace (run init ops)) [].
+Proof. exact serving_matches_trace. Qed.
+Print Assumptions C16_serving_matches_trace.
+
+(* ... hence, on the trace alone: Wait returns only after every server of the instance's lineage
+   that began serving has returned *)
+Theorem C16_wait_after_lineage_servers_returned :
+  forall ops h s' ev o,
+  step (final init ops) (OWait h) = (s', ev, RBool true) ->
+  find_inst h (known (final init ops)) = Some o ->
+  forall x, In x (known (final init ops)) -> i_root x = i_root o ->
+  forall j, ~ In (i_id x, j) (serving_of (trace (run init ops)) []).
+Proof. exact wait_trace. Qed.
+Print Assumptions C16_wait_after_lineage_servers_returned.
+
 (* ... and the successor created by a reload is accounted to the lineage of the instance it
    replaces (same wait group), in every state *)
 Theorem C16_successor_shares_wait_group :
